@@ -211,3 +211,16 @@ Example C01_engine_refines_spec_all_nonvacuous :
   run_sem (re_table [] []) tr_d tr_rq tr_args = "ROWS:o0=i1".
 Proof. vm_compute. repeat split; reflexivity. Qed.
 Print Assumptions C01_engine_refines_spec_all_nonvacuous.
+
+(* ---- for every IR the frontend produces ----
+   The hypotheses of C01_engine_refines_spec_all follow from the structural well-formedness `wf_ir` of the
+   raw IR (WfIR.v; property C11 evaluates wf_ir on every IR the real frontend returns) and from the only
+   non-structural condition, that no truncation limit saturates at usize::MAX (WfRefine.v). *)
+From TF Require Import WfIR WfRefine.
+Theorem C01_engine_refines_spec_wf_ir :
+  forall re g args q q' rows,
+    ty_indep g -> wf_ir q = true -> lower_query q = Ok q' -> no_saturation args (q_comp q') = true ->
+    interpret re g args q' = Ok rows ->
+    Forall2 row_equiv rows (sem re g args q').
+Proof. intros re g args q q' rows. exact (wf_ir_engine_refines re g args q q' rows). Qed.
+Print Assumptions C01_engine_refines_spec_wf_ir.
